@@ -2,13 +2,14 @@
 (* Trace validation for Storage: each line of the ndjson file is one recorded history of a real      *)
 (* storage object (or of the harness's NumPy reference, which cross-checks this specification):      *)
 (*   {g: {shape, internal, mask}, obs: "full" | "sampled", gkeys: [key, ...],                         *)
-(*    ev: [{op, key, val: {shape, data}, exc, o: {get: [Outcome per gkeys], ta_none, ta_true,         *)
-(*          ta_false, mask, ml, has, gfi}}]}                                                          *)
+(*    ev: [{op, key, val: {shape, data}, exc, gk: 0 | 1, o: {get: [Outcome per gkeys], ta_none,       *)
+(*          ta_true, ta_false, mask, ml, has, gfi}}]}                                                 *)
 (* op = "new" (the fresh object, nothing changes) | "dump" (key over the external axes, val a Block) *)
 (* | "persist_reopen".  `exc` is the exception class the mutator raised ("" = none); `o` holds what  *)
 (* EVERY observer returned right after the mutator: __getitem__ for every key of `gkeys`, to_array    *)
 (* for splat_internal = None/True/False, mask, mask_linear(), has_index(i) and get_from_index(i) for *)
-(* every linear index i of the external shape.                                                       *)
+(* every linear index i of the external shape.  gk = 0: the __getitem__ observations were skipped    *)
+(* for this event (o.get = []); the LAST event of an obs = "full" trace must have gk = 1.            *)
 (* An event is explained iff the specified mutator has the logged outcome AND every specified        *)
 (* observation of the specified post-state equals the logged one.                                    *)
 (* obs = "full": gkeys must contain ObsGetKeys(full shape), otherwise the TRACE is ill-formed         *)
@@ -27,7 +28,8 @@ Ev == T.ev[l]
 ToSet(s) == {s[i] : i \in DOMAIN s}
 
 TraceOK(t) == /\ WellFormedBasic(t.g)
-              /\ t.obs = "sampled" \/ ObsGetKeys(Complete(t.g).full) \subseteq ToSet(t.gkeys)
+              /\ t.obs = "sampled" \/ (/\ ObsGetKeys(Complete(t.g).full) \subseteq ToSet(t.gkeys)
+                                        /\ t.ev[Len(t.ev)].gk = 1)
               /\ \A i \in DOMAIN t.ev : t.ev[i].op = "dump" => IsBlock(t.g, t.ev[i].val)
 
 Apply(e, s) ==
@@ -35,7 +37,8 @@ Apply(e, s) ==
       [] e.op = "dump"           -> LET d == Dump(G, s.w, e.key, e.val) IN [exc |-> d.exc, st |-> [s EXCEPT !.w = d.w]]
       [] e.op = "persist_reopen" -> [exc |-> "", st |-> PersistReopen(s)]
 
-Matches(e, r) == r.exc = e.exc /\ Observe(G, r.st.w, T.gkeys) = e.o
+Obs(e, w)     == Observe(G, w, IF e.gk = 1 THEN T.gkeys ELSE <<>>)
+Matches(e, r) == r.exc = e.exc /\ Obs(e, r.st.w) = e.o
 
 Report(c, i, exp) == PrintT(<<"DIAG", ToJson([t |-> tid, l |-> l, c |-> c, i |-> i, exp |-> exp])>>)
 (* IF, not \/: inside an action TLC explores BOTH disjuncts of a disjunction *)
@@ -43,7 +46,7 @@ DiagSeq(c, exp, obs) == IF Len(exp) # Len(obs) THEN Report(c, 0, exp)
                         ELSE \A i \in DOMAIN exp : IF exp[i] = obs[i] THEN TRUE ELSE Report(c, i, exp[i])
 DiagOne(c, exp, obs) == IF exp = obs THEN TRUE ELSE Report(c, 0, exp)
 Diagnose(e, r) ==
-    LET x == Observe(G, r.st.w, T.gkeys) IN
+    LET x == Obs(e, r.st.w) IN
     /\ DiagOne("outcome", r.exc, e.exc)
     /\ DiagSeq("get", x.get, e.o.get)
     /\ DiagOne("ta_none", x.ta_none, e.o.ta_none)
